@@ -4,7 +4,11 @@ package engines
 
 import (
 	"fmt"
+	"os"
 	"strings"
+	"sync"
+
+	rt "github.com/arnodel/golua/runtime"
 
 	"vsim/core"
 	"vsim/harness"
@@ -22,27 +26,82 @@ func init() {
 	core.Register(&core.Engine{Name: "iso", Run: runIso})
 }
 
-func runOne(src string, s *core.Sched, id int, log *core.Log) ([]string, string) {
-	h := harness.NewHost(s, log)
+// isoOpts returns the runtime options of runtime i (0 = none).
+func isoOpts(kind int) []rt.RuntimeOption {
+	switch kind {
+	case 1:
+		return []rt.RuntimeOption{rt.WithRegSetMaxAge(1)}
+	case 2:
+		return []rt.RuntimeOption{rt.WithRuntimeContext(rt.RuntimeContextDef{HardLimits: rt.RuntimeResources{Cpu: 1500}})}
+	case 3:
+		return []rt.RuntimeOption{rt.WithRuntimeContext(rt.RuntimeContextDef{HardLimits: rt.RuntimeResources{Memory: 40000}, RequiredFlags: rt.ComplyIoSafe})}
+	}
+	return nil
+}
+
+func runOne(src string, s *core.Sched, id int, log *core.Log, opt int) ([]string, string) {
+	h := harness.NewHost(s, log, isoOpts(opt)...)
 	h.ID = id
 	out := h.Run("sim", src)
 	ev := log.Events()
-	s.Yield()
+	if s != nil {
+		s.Yield()
+	}
 	h.Close()
 	return ev, out.String()
 }
 
 // runSolo runs one program alone, under a scheduler of its own following the
 // natural schedule (every goroutine golua creates must belong to a scheduler).
-func runSolo(src string, id int) ([]string, string) {
+func runSolo(src string, id int, opt int) ([]string, string) {
 	s := core.NewSched(core.ReplayTape(nil), 200000)
 	log := core.GetLog()
 	defer core.PutLog(log)
 	s.Begin()
-	ev, out := runOne(src, s, id, log)
+	ev, out := runOne(src, s, id, log, opt)
 	s.End()
 	s.Release()
 	return ev, out
+}
+
+// runIsoParallel: the runtimes really run concurrently, each on its own goroutine, with no
+// scheduler (this mode is used only by worker processes that never install one).  It is not
+// replayable: only data race reports (sound by construction) and repeatable differences count.
+func runIsoParallel(ctx *core.RunCtx, srcs []string) {
+	n := len(srcs)
+	solo := make([][]string, n)
+	soloOut := make([]string, n)
+	logs := make([]*core.Log, n)
+	for i := range srcs {
+		logs[i] = &core.Log{}
+		solo[i], soloOut[i] = runOne(srcs[i], nil, i+1, logs[i], 0)
+		logs[i] = &core.Log{}
+	}
+	got := make([][]string, n)
+	gotOut := make([]string, n)
+	var wg sync.WaitGroup
+	for i := range srcs {
+		i := i
+		wg.Add(1)
+		go func() {
+			defer wg.Done()
+			got[i], gotOut[i] = runOne(srcs[i], nil, i+1, logs[i], 0)
+		}()
+	}
+	wg.Wait()
+	ctx.Trivial = false
+	ctx.Shape = core.HashString(ctx.Sample)
+	ctx.Count("runtimes run in parallel", int64(n))
+	for i := range srcs {
+		if strings.Contains(gotOut[i], "PANIC(") && !strings.Contains(gotOut[i], "TERMINATION") {
+			ctx.Fail("C20", "C20.P", "panic", "runtime %d: Go panic escaped: %s", i+1, gotOut[i])
+			return
+		}
+		if d := firstDiff(got[i], solo[i]); d >= 0 {
+			ctx.Fail("C20", "C20.S1", "log-differs-from-solo:"+tagOf(at(solo[i], d)), "runtime %d of %d (parallel): event #%d is %s but %s when run alone", i+1, n, d, at(got[i], d), at(solo[i], d))
+			return
+		}
+	}
 }
 
 func runIso(ctx *core.RunCtx) {
@@ -61,12 +120,55 @@ func runIso(ctx *core.RunCtx) {
 		}
 	}
 	ctx.Sample = strings.Join(srcs, "\n-- ==== next runtime ====\n")
-	// solo runs (no scheduler, one after the other)
+	if ctx.Mode == "par" {
+		runIsoParallel(ctx, srcs)
+		return
+	}
+	// runtime options: most runtimes have none; those with options are created with the same ones in
+	// both phases.  Solo runs of option-less runtimes come first, so that an option leaking into the
+	// defaults shows up as a difference.
+	opts := make([]int, n)
+	for i := range opts {
+		if g.Chance(1, 4) {
+			opts[i] = 1 + g.Choose(3)
+			ctx.Count("runtimes created with options", 1)
+		}
+	}
+	// warnings go to os.Stderr as it is when a runtime is created: point it at a scratch file
+	harness.KeepDefaultWarner = true
+	defer func() { harness.KeepDefaultWarner = false }()
+	realStderr := os.Stderr
+	warnFile, _ := os.CreateTemp("/var/tmp", "vsim-warn-")
+	if warnFile != nil {
+		os.Stderr = warnFile
+		defer func() {
+			os.Stderr = realStderr
+			warnFile.Close()
+			os.Remove(warnFile.Name())
+		}()
+	}
+	readWarnings := func() []string {
+		if warnFile == nil {
+			return nil
+		}
+		b, _ := os.ReadFile(warnFile.Name())
+		warnFile.Truncate(0)
+		warnFile.Seek(0, 0)
+		lines := strings.Split(strings.TrimSpace(string(b)), "\n")
+		sortStrings(lines)
+		return lines
+	}
+	// solo runs (each under a scheduler of its own, one after the other)
 	solo := make([][]string, n)
 	soloOut := make([]string, n)
-	for i := range srcs {
-		solo[i], soloOut[i] = runSolo(srcs[i], i+1)
+	for pass := 0; pass < 2; pass++ {
+		for i := range srcs {
+			if (opts[i] == 0) == (pass == 0) {
+				solo[i], soloOut[i] = runSolo(srcs[i], i+1, opts[i])
+			}
+		}
 	}
+	soloWarn := readWarnings()
 	// interleaved
 	s := core.NewSched(ctx.Sch, 200000)
 	s.Begin()
@@ -79,7 +181,7 @@ func runIso(ctx *core.RunCtx) {
 	for i := range srcs {
 		i := i
 		s.Go(func() {
-			got[i], gotOut[i] = runOne(srcs[i], s, i+1, logs[i])
+			got[i], gotOut[i] = runOne(srcs[i], s, i+1, logs[i], opts[i])
 		})
 	}
 	leak := s.End()
@@ -104,8 +206,12 @@ func runIso(ctx *core.RunCtx) {
 		ctx.Fail("C20", "C20.V7", "leak", "task leaked: %s", leak)
 		return
 	}
+	if gotWarn := readWarnings(); strings.Join(gotWarn, "\n") != strings.Join(soloWarn, "\n") {
+		ctx.Fail("C20", "C20.S1", "warnings-differ-from-solo", "warnings written when interleaved %q differ from the warnings of the solo runs %q", gotWarn, soloWarn)
+		return
+	}
 	for i := range srcs {
-		if strings.Contains(gotOut[i], "PANIC") {
+		if strings.Contains(gotOut[i], "PANIC(") && !strings.Contains(gotOut[i], "TERMINATION") {
 			ctx.Fail("C20", "C20.P", "panic", "runtime %d: Go panic escaped: %s", i+1, gotOut[i])
 			return
 		}
